@@ -94,8 +94,12 @@ enum Entry {
 	LowHttpBuilder,
 	LowHttpService,
 	LowWsConnect,
+	/// the default server (`Server::start`, accept loop) over loopback TCP, raw HTTP/1.1 peer
+	ServerTcpHttp,
+	/// the default server over loopback TCP, soketto peer
+	ServerTcpWs,
 }
-const ENTRIES: [Entry; 5] = [Entry::TowerHttp, Entry::TowerWs, Entry::LowHttpBuilder, Entry::LowHttpService, Entry::LowWsConnect];
+const ENTRIES: [Entry; 7] = [Entry::TowerHttp, Entry::TowerWs, Entry::LowHttpBuilder, Entry::LowHttpService, Entry::LowWsConnect, Entry::ServerTcpHttp, Entry::ServerTcpWs];
 
 /// a minimal RpcServiceT for `http::call_with_service`
 #[derive(Clone)]
@@ -151,6 +155,7 @@ async fn run_http(entry: Entry, req_limit: u32, resp_limit: u32, msg: &[u8], v: 
 			let resp = jsonrpsee_server::http::call_with_service(request, BatchRequestConfig::Unlimited, req_limit, CountingRpc(log.clone())).await;
 			to_out(resp).await?
 		}
+		Entry::ServerTcpHttp => tcp_http(req_limit, resp_limit, msg, v, log.clone()).await?,
 		_ => unreachable!(),
 	};
 	let runs = log.lock().unwrap().len();
@@ -166,6 +171,108 @@ async fn run_http(entry: Entry, req_limit: u32, resp_limit: u32, msg: &[u8], v: 
 	Ok(Outcome { handler_runs: runs, reply, keeps_serving: true })
 }
 
+fn start_tcp_server(req_limit: u32, resp_limit: u32, log: srv::InvLog) -> Result<(std::net::SocketAddr, jsonrpsee_server::ServerHandle), String> {
+	let listener = std::net::TcpListener::bind("127.0.0.1:0").map_err(|e| e.to_string())?;
+	listener.set_nonblocking(true).map_err(|e| e.to_string())?;
+	let addr = listener.local_addr().map_err(|e| e.to_string())?;
+	let server = jsonrpsee_server::Server::builder().set_config(cfg(req_limit, resp_limit)).build_from_tcp(listener).map_err(|e| e.to_string())?;
+	Ok((addr, server.start(srv::std_module(log))))
+}
+
+/// raw HTTP/1.1 over loopback against `Server::start`: Content-Length framing or chunked transfer encoding
+async fn tcp_http(req_limit: u32, resp_limit: u32, msg: &[u8], v: HttpVariant, log: srv::InvLog) -> Result<srv::HttpOut, String> {
+	use tokio::io::{AsyncReadExt, AsyncWriteExt};
+	let (addr, handle) = start_tcp_server(req_limit, resp_limit, log)?;
+	let mut io = tokio::net::TcpStream::connect(addr).await.map_err(|e| e.to_string())?;
+	let mut req = Vec::new();
+	let head = "POST / HTTP/1.1\r\nhost: localhost\r\ncontent-type: application/json\r\nconnection: close\r\n";
+	let n = msg.len();
+	match v {
+		HttpVariant::OneFrameCl | HttpVariant::ThreeFramesCl => {
+			req.extend_from_slice(format!("{head}content-length: {n}\r\n\r\n").as_bytes());
+			req.extend_from_slice(msg);
+		}
+		_ => {
+			// no usable Content-Length: chunked transfer encoding
+			req.extend_from_slice(format!("{head}transfer-encoding: chunked\r\n\r\n").as_bytes());
+			let chunks: Vec<&[u8]> = match v {
+				HttpVariant::OneFrameNoCl => vec![msg],
+				HttpVariant::SmallFrames => msg.chunks(16).collect(),
+				_ => vec![&msg[..n / 3], &msg[n / 3..2 * n / 3], &msg[2 * n / 3..]],
+			};
+			for c in chunks {
+				if c.is_empty() {
+					continue;
+				}
+				req.extend_from_slice(format!("{:x}\r\n", c.len()).as_bytes());
+				req.extend_from_slice(c);
+				req.extend_from_slice(b"\r\n");
+			}
+			req.extend_from_slice(b"0\r\n\r\n");
+		}
+	}
+	// the server may answer (413) and close before the whole body is written: ignore write errors
+	let _ = io.write_all(&req).await;
+	let mut buf = Vec::new();
+	let _ = tokio::time::timeout(std::time::Duration::from_secs(10), io.read_to_end(&mut buf)).await;
+	let _ = handle.stop();
+	let text = String::from_utf8_lossy(&buf).to_string();
+	let status: u16 = text.split_whitespace().nth(1).and_then(|x| x.parse().ok()).ok_or_else(|| format!("no HTTP status in {text:?}"))?;
+	let body = text.split("\r\n\r\n").nth(1).unwrap_or("").to_string();
+	// de-chunk a chunked response body if needed: take the JSON object inside
+	let body = match (body.find('{'), body.rfind('}')) {
+		(Some(a), Some(b)) if b >= a => body[a..=b].to_string(),
+		_ => body,
+	};
+	Ok(srv::HttpOut { status, content_type: None, body: body.into_bytes() })
+}
+
+async fn tcp_ws(req_limit: u32, resp_limit: u32, msg: &[u8], log: srv::InvLog) -> Result<Outcome, String> {
+	use tokio_util::compat::TokioAsyncReadCompatExt;
+	let (addr, handle) = start_tcp_server(req_limit, resp_limit, log.clone())?;
+	let io = tokio::net::TcpStream::connect(addr).await.map_err(|e| e.to_string())?;
+	let mut client = soketto::handshake::Client::new(io.compat(), "localhost", "/");
+	match client.handshake().await.map_err(|e| format!("handshake: {e}"))? {
+		soketto::handshake::ServerResponse::Accepted { .. } => {}
+		other => return Err(format!("handshake refused: {other:?}")),
+	}
+	let mut b = client.into_builder();
+	b.set_max_message_size(64 << 20);
+	let (mut sender, mut receiver) = b.finish();
+	sender.send_text(std::str::from_utf8(msg).unwrap()).await.map_err(|e| e.to_string())?;
+	sender.send_text(SENTINEL).await.map_err(|e| e.to_string())?;
+	sender.flush().await.map_err(|e| e.to_string())?;
+	let mut replies: Vec<Value> = Vec::new();
+	let mut sentinel = false;
+	let mut buf = Vec::new();
+	loop {
+		buf.clear();
+		let r = tokio::time::timeout(std::time::Duration::from_secs(10), receiver.receive_data(&mut buf)).await;
+		match r {
+			Err(_) => return Err(format!("hang: no frame within 10 s after replies {replies:?}")),
+			Ok(Err(_)) => break,
+			Ok(Ok(_)) => {
+				let v: Value = serde_json::from_slice(&buf).map_err(|e| format!("reply not JSON: {e}"))?;
+				if v["id"] == "S" {
+					sentinel = v["result"] == 42 || v["error"]["code"] == -32008;
+					let _ = handle.stop();
+				} else {
+					replies.push(v);
+				}
+			}
+		}
+	}
+	let _ = handle.stop();
+	let runs = log.lock().unwrap().iter().filter(|h| *h == "add").count().saturating_sub(sentinel as usize);
+	let reply = match replies.as_slice() {
+		[] => "none".to_string(),
+		[v] if v.get("result").is_some() => "result".into(),
+		[v] => format!("err{}", v["error"]["code"]),
+		more => format!("{}-replies", more.len()),
+	};
+	Ok(Outcome { handler_runs: runs, reply, keeps_serving: sentinel })
+}
+
 async fn to_out(resp: jsonrpsee_server::HttpResponse) -> Result<srv::HttpOut, String> {
 	use http_body_util::BodyExt;
 	let status = resp.status().as_u16();
@@ -175,6 +282,9 @@ async fn to_out(resp: jsonrpsee_server::HttpResponse) -> Result<srv::HttpOut, St
 
 async fn run_ws(entry: Entry, req_limit: u32, resp_limit: u32, msg: &[u8]) -> Result<Outcome, String> {
 	let log: srv::InvLog = Arc::new(Mutex::new(Vec::new()));
+	if entry == Entry::ServerTcpWs {
+		return tcp_ws(req_limit, resp_limit, msg, log).await;
+	}
 	let (stop, handle) = stop_channel();
 	let mut conn = match entry {
 		Entry::TowerWs => {
@@ -243,7 +353,7 @@ async fn run_ws(entry: Entry, req_limit: u32, resp_limit: u32, msg: &[u8]) -> Re
 
 pub fn check(rep: &Reporter) {
 	rep.set_rule(
-		"(max_request, max_response) over 8 pairs incl. unequal ones × message size ∈ {limit−2 … limit+2, 2·limit, 10·limit, limit·3/2} × 3 padding styles (inner whitespace, ignored string param, ≤127 leading whitespace) × entry point {TowerService over HTTP, TowerService over WebSocket, http::call_with_service_builder, http::call_with_service, ws::connect} × HTTP body variants {1 frame+CL, 1 frame no CL, 3 frames, many 16-byte frames, 3 frames+CL, lying small CL}; the message is always a valid `add` call, so 'processed' = handler ran once and the sum came back. Distinct by the whole tuple; every case non-trivial.",
+		"(max_request, max_response) over 8 pairs incl. unequal ones × message size ∈ {limit−2 … limit+2, 2·limit, 10·limit, limit·3/2} × 3 padding styles (inner whitespace, ignored string param, ≤127 leading whitespace) × entry point {TowerService over HTTP, TowerService over WebSocket, http::call_with_service_builder, http::call_with_service, ws::connect, Server::start over loopback TCP with a raw HTTP/1.1 peer (Content-Length or chunked), Server::start over loopback TCP with a WebSocket peer} × HTTP body variants {1 frame+CL, 1 frame no CL, 3 frames, many 16-byte frames, 3 frames+CL, lying small CL}; the message is always a valid `add` call, so 'processed' = handler ran once and the sum came back. Distinct by the whole tuple; every case non-trivial.",
 	);
 	rep.assume("WebSocket messages are sent as one unfragmented frame");
 	let mut cases = Vec::new();
@@ -257,7 +367,13 @@ pub fn check(rep: &Reporter) {
 			for pad in PADS {
 				for e in ENTRIES {
 					match e {
-						Entry::TowerWs | Entry::LowWsConnect => cases.push((gi, n, pad, e, HttpVariant::OneFrameCl)),
+						Entry::TowerWs | Entry::LowWsConnect | Entry::ServerTcpWs => cases.push((gi, n, pad, e, HttpVariant::OneFrameCl)),
+						Entry::ServerTcpHttp => {
+							// a lying Content-Length is not expressible over a real HTTP/1.1 connection (hyper frames the body by it)
+							for v in HTTP_VARIANTS.iter().filter(|v| **v != HttpVariant::LyingSmallCl) {
+								cases.push((gi, n, pad, e, *v));
+							}
+						}
 						_ => {
 							for v in HTTP_VARIANTS {
 								cases.push((gi, n, pad, e, v));
@@ -273,7 +389,7 @@ pub fn check(rep: &Reporter) {
 		let (gi, n, pad, entry, variant) = cases[i];
 		let (rq, rs) = GRID[gi];
 		let Some(msg) = message(n, pad) else { return };
-		let is_ws = matches!(entry, Entry::TowerWs | Entry::LowWsConnect);
+		let is_ws = matches!(entry, Entry::TowerWs | Entry::LowWsConnect | Entry::ServerTcpWs);
 		let res = rt.block_on(async {
 			if is_ws { run_ws(entry, rq, rs, &msg).await } else { run_http(entry, rq, rs, &msg, variant).await }
 		});
@@ -338,7 +454,7 @@ pub fn check(rep: &Reporter) {
 	par_for(rep, indep.len(), 2, srv::rt, |i, rt, local| {
 		let (rq, n, pad, entry, variant) = indep[i];
 		let Some(msg) = message(n, pad) else { return };
-		let is_ws = matches!(entry, Entry::TowerWs | Entry::LowWsConnect);
+		let is_ws = matches!(entry, Entry::TowerWs | Entry::LowWsConnect | Entry::ServerTcpWs);
 		let mut seen: Vec<(u32, (usize, bool))> = Vec::new();
 		for rs in [36u32, 100, 1000, 1 << 20] {
 			let res = rt.block_on(async { if is_ws { run_ws(entry, rq, rs, &msg).await } else { run_http(entry, rq, rs, &msg, variant).await } });
